@@ -20,11 +20,18 @@ RULE = ("registries of 0-200 scripted tests (normal and IGNORE_TEST mixed) with 
         "boundaries (j = i, j = 0, j = i - 1, RAND_MAX, exhausted stream), exhaustively every residue tuple for 2-5 tests, and with the "
         "platform's real srand/rand for seeds 1..50 (quick) / 1..2000 (thorough) x sizes {0,1,2,3,7,64}; "
         "repeat 1-4 (reshuffle per repetition); every configuration through the API and through CommandLineTestRunner argv. "
+        "Sessions = 2-5 runs on ONE registry, each with its own route, filters (both kinds / one kind only / none), -ri, -b, shuffle, "
+        "repeat, or a listing run (-lg/-ln/-ll): a fixed grid (every filter kind x both sides x both routes, then no filter / the other "
+        "kind only / a listing run in between), sessions aimed at a filter list going stale (filters of one kind installed by a run or a "
+        "listing run, later a run with none of that kind: directly, after a listing run, after another run), and random sessions. "
         "non-trivial = at least two tests and (a filter, or reverse, or shuffle, or an ignored test)")
 ASSUMPTIONS = ["group, name and filter strings are C strings (no NUL byte)",
                "rand() returns values in 0..RAND_MAX (2^31-1)",
                "tests do not fail, crash or run in a separate process (C01/C11 cover those)",
-               "through the command line: repeat >= 1 and shuffle seed in 1..2^32-1 (what the option syntax can express)"]
+               "through the command line: repeat >= 1 and shuffle seed in 1..2^32-1 (what the option syntax can express)",
+               "sessions: the registered tests do not change between the runs of a session; the objects that own a run's filter lists "
+               "(the CommandLineTestRunner, the API caller's TestFilter chain) outlive the session; whether run-ignored stays on after a "
+               "run that asked for it is not constrained by the property (both accepted by the oracle; the model keeps it, as the code does)"]
 CRASH_IS_VIOLATION = True
 PER_TIMEOUT = 8.0
 ALPHA = [0x61, 0x62, 0x63]
@@ -607,8 +614,10 @@ def diagnose(d, o):
         order = None if shuffled else (list(range(n)) if flipped else list(range(n - 1, -1, -1)))
         for r in reps:
             bad = judge_rep(tests, c, c["ri"], order, r)
-            if bad and ri_hist and not c["ri"] and judge_rep(tests, c, 1, order, r) is None:
-                bad = None
+            if bad and ri_hist and not c["ri"]:
+                alt = judge_rep(tests, c, 1, order, r)          # the switch an earlier run set may still be on
+                if alt is None or bad.startswith("execution wrong") or bad in ("run count wrong", "ignored count wrong"):
+                    bad = alt
             if bad:
                 return tag + bad
         ri_hist |= bool(c["ri"])
@@ -712,12 +721,19 @@ LEVEL_TEXT = ("Machine-checked (Coq) theorems over an executable model of TestRe
               "selected test is started exactly once (its body once unless counted as ignored), selection is the declarative 'some filter of each "
               "given list accepts' with substring = exists pre post / equality / negation, shuffle never indexes outside the array and yields a "
               "permutation, reverse = rev, relink = identity, group notifications are balanced with every test inside a segment of its own group. "
+              "Sessions (several CommandLineTestRunner / API runs and listing runs on one registry; the state between runs carries the list order, "
+              "the registry's filter fields and the run-ignored switch): every run of every valid session meets the oracle for its OWN "
+              "configuration; from ANY state (arbitrary stale filter fields) a test is started exactly once iff the run's own filters select it "
+              "(no filter given = every test), for any two histories the same run selects the same tests; after any history the list is a "
+              "permutation of the registered tests and the filter fields are the last run's; a listing run runs nothing; the runner that "
+              "installs a filter list only when the command line gives one is refuted. "
               "Tied to the code by a differential run of the extracted model against a real TestRegistry (API and argv routes, scripted and real "
               "rand()), with the extracted model-free spec and an independent Python judge evaluating the implementation's observation.")
 LEVEL_NOTE = ("Trusted: Coq kernel, extraction, harness, generator. Modelled not verified: the C++ itself; the singly linked list is the Coq list it "
               "denotes (cons = addTest), so aliasing effects of relinking are seen only by the harness (list walk bounded by the number of tests). "
               "The platform's rand() is scenario input (the stream libc gives for the seed is computed by the generator and compared with the calls "
               "the harness records). Exact shuffled order and the srand/rand calls are compared model-vs-implementation but not demanded by the "
-              "oracle (any permutation satisfies the property). Translation of argv into filter lists is C12's subject; here argv is only a route.")
+              "oracle (any permutation satisfies the property). Translation of argv into filter lists is C12's subject; here argv is only a route. "
+              "CommandLineTestRunner::initializeTestRun is modelled by hand (`install`); what a listing run prints is not observed.")
 TECHNIQUE = "Coq proof over hand-written executable model + extracted-model/implementation correspondence check (differential, exhaustive small shuffles and filter grid)"
 READY = True
